@@ -75,6 +75,10 @@ def plan(tier, seed=0):
     ik_blocks = [(g, b, s) for g in gids for b in ("I", "B1", "BS") for s in sp[g]]
     ik_blocks += [("seedgeo%d" % seed, b, s) for b in ("I", "B1", "BS") for s in ("s0", "s0.4")]     # the seed-generic geometry
     fk_blocks = [(g, b, s) for g in gids for b in ("I", "B1") for s in sp[g]]
+    # a steeply tilted base for the quick geometries (both tiers, so that the thorough lattice contains the quick one)
+    tilt = [(g, "BT", "s0") for g in splib.QUICK_GIDS]
+    ik_blocks += tilt
+    fk_blocks += tilt
     return gids, spins, ik_blocks, fk_blocks
 
 
@@ -400,7 +404,7 @@ def run(ctx):
     lattice.fill(ctx, [("fk", m_fk), ("ik", m_ik)],
                  "every (geometry, base, spin, pose[, fk_mode]) tuple of the product is distinct by construction; counted as "
                  "non-trivial when the relative pose is not the neutral one; FK cases only for poses inside the workspace",
-                 {"geometries": len(gids), "family_nominal": len(splib.family()), "bases_ik": ["I", "B1", "BS"], "bases_fk": ["I", "B1"],
+                 {"geometries": len(gids), "family_nominal": len(splib.family()), "bases_ik": ["I", "B1", "BS"], "bases_fk": ["I", "B1", "BT (quick geometries)"],
                   "spins": spins, "pose_grid": splib.GRID_N, "fk_subgrid": len(splib.FK_SUBGRID), "fk_modes": [1, 0],
                   "respin_at_pose_subgrid": len(RESPIN_AT), "ik_blocks": len(ik_blocks), "fk_blocks": len(fk_blocks)})
     listed = _listed()
